@@ -68,6 +68,7 @@ def run(report):
     audit = {"functions": 0, "points": 0, "failures": [], "no_point": 0}
     extra_kinds = collections.Counter()
     vec_counters = c02_vector.new_counters()
+    rules_used = collections.defaultdict(list)
     for r in results:
         m = r["modname"]
         if r.get("crash"):
@@ -117,6 +118,11 @@ def run(report):
             klass_count[f.klass] += 1
             if f.assoc:
                 hows[f.assoc] += 1
+            if f.assoc_notes:
+                # association beyond the decorators (rules R-matrix / R-unique): said per function, the rule once
+                report.function(f.qual, f.file, "association: " + "; ".join(f.assoc_notes))
+                for rule in f.assoc_rules:
+                    rules_used[rule].append(f"{f.qual} [{f.klass}]")
             for o in f.obs:
                 if o.verdict == PROVED and o.detail.startswith("domain="):
                     domains[o.detail] += 1
@@ -178,6 +184,7 @@ def run(report):
         "classification": dict(klass_count),
         "proved_by_domain": dict(domains),
         "sigma_source": dict(hows),
+        "association_rules_beyond_decorators": {k: sorted(v) for k, v in sorted(rules_used.items())},
         "extra_stand_ins": dict(extra_kinds),
         "not_proved_reasons": dict(reasons.most_common()),
         "pool_wall_s": round(pool_s, 1),
@@ -203,7 +210,9 @@ def run(report):
         "association of a parameter the decorators leave without a law symbol: parameter `p_` stands for the module's law "
         "symbol named `p` (dimension must agree when the guard gives one); result without a symbol in validate_output: "
         "the only law symbol not associated with a parameter, and only when the function is called calculate_<that "
-        "attribute name>; anything else is out_of_reach (coverage.sigma_source counts the functions per rule)",
+        "attribute name>; then rules R-matrix and R-unique (stated below when used, listed per function in "
+        "functions_under_contract[..].note and coverage.association_rules_beyond_decorators); anything else is "
+        "out_of_reach (coverage.sigma_source counts the functions per rule)",
         "during generic execution sympy.Expr carries two read-only attributes, scale_factor -> self and dimension -> "
         "dimensionless (a Quantity built from a symbolic SI value is that expression)",
         "a path that raises ValueError / AssertionError, or whose result is not finite (division by zero), is the function "
@@ -226,6 +235,8 @@ def run(report):
         "when a numeric stand-in runs)",
         "degenerate structure follows the generic summary (SymPy auto-evaluation is value preserving)",
     )
+    for rule in sorted(rules_used):
+        report.assume(calc.RULE_TEXT[rule])
     for n in sorted(rebound_all):
         report.assume(f"rebound in the module globals during generic execution: {n}: {calc.REBOUND.get(n, '')}")
     for a in sorted(axioms_all):
